@@ -87,10 +87,12 @@ RULE = ("random scenarios (1-9 subscribers with overlapping topic sets, 0-14 pub
         "start / after the k-th write / with the failing write / after a publish / after a delay, 0-3 Shutdown calls possibly "
         "concurrent or with a cancelled context, k-th Send/Flush failures, replayer none / recording / real FiniteReplayer "
         "(manual and automatic IDs, resuming subscribers) / faulty (error or panic at call k)), run against the real Joe with "
-        "random Gosched/sleep perturbation at every hook; non-trivial = at least one publish accepted and one subscriber "
+        "random Gosched/sleep perturbation at every hook; writers' own errors that wrap context errors; subscriptions to no topic; one "
+        "scenario in fifteen a late resumer (more publications than the ring holds, a subscriber resuming from the oldest held IDs "
+        "with a writer failing once), one in fifty a crowd (64-110 subscribers, most failing at once); non-trivial = at least one publish accepted and one subscriber "
         "registered; distinct by scenario seed; C03 also: publications through Server.Publish (SPUB: 1-4 subscribers, 1-5 "
         "publications, topic lists that mix names, the default topic \"\", a name with a comma, a blank, and no topics at all; "
-        "SPUBH: the same with the subscribers as Server.ServeHTTP sessions whose topics come from OnSession, some on the default topic)")
+        "SPUBH: the same with the subscribers as Server.ServeHTTP sessions whose topics come from OnSession, some on the default topic); C04 also: end-to-end scenarios (E2E) through the library's server and client")
 
 
 def nontrivial(case, go):
